@@ -35,6 +35,8 @@ type parseModel struct {
 	// it was tabulated at all; the ways in which it accepts less than the specification
 	autoDecided bool
 	autoUnder   []string
+	// semantic model of the defined-once mechanism (skvm.go)
+	kvmSem *KvmSem
 }
 
 // acceptObl reports, under both owners, whether the parser accepts what the serializer writes.
@@ -134,40 +136,15 @@ func (w *World) rulesParse(out *[]Obligation) {
 	}
 }
 
-func (w *World) rulesParsePkg(p *Pkg, out *[]Obligation) {
-	k := p.Key
-	ov := vocab[k]
+// fillParseModel locates the parsed object, the element loop, the split and
+// the Set / defined-once calls of ParseVector.
+func (p *Pkg) fillParseModel(m *parseModel) (kvmCall *ast.CallExpr) {
 	info := p.Info
-	add := func(ok bool, rule, inst string, n ast.Node, detail string) {
-		pos := k
-		if n != nil {
-			pos = p.pos(n)
-		}
-		*out = append(*out, Obligation{Rule: rule, Instance: k + "." + inst, Pos: pos, OK: ok, Detail: detail, NonTrivial: true})
-	}
-	fd := p.Funcs["ParseVector"]
-	if fd == nil || fd.Body == nil {
-		add(false, "R01.pair", "ParseVector", nil, "no ParseVector function")
-		return
-	}
-	m := &parseModel{p: p, fd: fd}
-	params := paramObjs(info, fd)
-	if len(params) != 1 {
-		add(false, "R01.pair", "ParseVector", fd, "ParseVector does not take exactly one string: undecided")
-		return
-	}
-	m.param = params[0]
-	m.g = cfg.New(fd.Body, func(c *ast.CallExpr) bool {
-		if id, ok := c.Fun.(*ast.Ident); ok && id.Name == "panic" {
-			return false
-		}
-		return true
-	})
+	fd := m.fd
 	m.orderVar, _, _, _ = p.orderTable()
 	setFn := p.method("Set")
 	km := p.kvmModel()
 	// locate object, loop, calls
-	var kvmCall *ast.CallExpr
 	ast.Inspect(fd.Body, func(n ast.Node) bool {
 		switch x := n.(type) {
 		case *ast.AssignStmt:
@@ -211,6 +188,66 @@ func (w *World) rulesParsePkg(p *Pkg, out *[]Obligation) {
 			if m.loop == nil {
 				m.loop = s
 			}
+		}
+	}
+	return kvmCall
+}
+
+// parseModelOf: the located parts of ParseVector, for rule groups other than `parse`
+func (p *Pkg) parseModelOf() *parseModel {
+	if p.pm != nil {
+		return p.pm
+	}
+	fd := p.Funcs["ParseVector"]
+	m := &parseModel{p: p, fd: fd}
+	p.pm = m
+	if fd == nil || fd.Body == nil {
+		return m
+	}
+	params := paramObjs(p.Info, fd)
+	if len(params) != 1 {
+		return m
+	}
+	m.param = params[0]
+	p.fillParseModel(m)
+	return m
+}
+
+func (w *World) rulesParsePkg(p *Pkg, out *[]Obligation) {
+	k := p.Key
+	ov := vocab[k]
+	info := p.Info
+	add := func(ok bool, rule, inst string, n ast.Node, detail string) {
+		pos := k
+		if n != nil {
+			pos = p.pos(n)
+		}
+		*out = append(*out, Obligation{Rule: rule, Instance: k + "." + inst, Pos: pos, OK: ok, Detail: detail, NonTrivial: true})
+	}
+	fd := p.Funcs["ParseVector"]
+	if fd == nil || fd.Body == nil {
+		add(false, "R01.pair", "ParseVector", nil, "no ParseVector function")
+		return
+	}
+	m := &parseModel{p: p, fd: fd}
+	params := paramObjs(info, fd)
+	if len(params) != 1 {
+		add(false, "R01.pair", "ParseVector", fd, "ParseVector does not take exactly one string: undecided")
+		return
+	}
+	m.param = params[0]
+	m.g = cfg.New(fd.Body, func(c *ast.CallExpr) bool {
+		if id, ok := c.Fun.(*ast.Ident); ok && id.Name == "panic" {
+			return false
+		}
+		return true
+	})
+	kvmCall := p.fillParseModel(m)
+	km := p.kvmModel()
+	// the defined-once mechanism, semantically (v3)
+	if ov.Order == "free" && m.loop != nil && m.abvObj != nil {
+		if ks := p.kvmSem(m); ks.Call != nil && kvmCall == nil {
+			kvmCall = ks.Call
 		}
 	}
 	if m.objVar == nil || m.loop == nil || m.setCall == nil || m.splitAs == nil {
